@@ -37,8 +37,17 @@ Theorem C08_primary_run : forall ttl evs,
   (closed = true <-> (x <> XHandedOff /\ x <> XStillPrimary)) /\
   (x = XHandedOff -> In (PHandoff true true) evs) /\
   (x = XExpired -> stop <= ttl + retry_ms) /\
-  (x = XExpired -> ~ In PRenewExpired evs -> ttl < stop).
+  (x = XExpired -> ~ In PRenewExpired evs -> ~ In PHandoffLeaseGone evs -> ttl < stop).
 Proof. exact primary_run_facts. Qed.
+(* a handoff request is served between two renewals: if the renewal made before the lease id is passed on reports the lease
+   gone the role ends at once; if the handoff fails for any other reason nothing changes - the next renewal is not postponed,
+   so handoff requests cannot keep a node primary past the bounds above *)
+Theorem C08_handoff_lease_gone_ends_role : forall ttl s r,
+  primary_loop ttl s (PHandoffLeaseGone :: r) = (XExpired, true, p_since s).
+Proof. exact handoff_lease_gone_ends_role. Qed.
+Theorem C08_handoff_failed_keeps_deadline : forall ttl s c l r, c && l = false ->
+  primary_loop ttl s (PHandoff c l :: r) = primary_loop ttl s r.
+Proof. exact handoff_failed_keeps_deadline. Qed.
 Theorem C08_expired_renewal_ends_role : forall ttl s r,
   primary_loop ttl s (PRenewExpired :: r) = (XExpired, true, p_since s + p_wait s).
 Proof. exact expired_renewal_ends_role. Qed.
@@ -62,3 +71,12 @@ Example C08_nonvacuous :
    primary_run 2000 [PHandoff false true; PHandoff true true])
   = ([1; 1; 2; 3], [0; 1; 2], [0; 1], (XExpired, true, 3000), (XHandedOff, false, 0)).
 Proof. vm_compute. reflexivity. Qed.
+
+(* the same holds at the last moment: the cluster id the lease service has right after the acquisition is compared again
+   (it may have been initialised for another cluster since the node looked first) *)
+Theorem C08_post_acquire_own_cluster : forall local leaser c, post_acquire local leaser = (true, Some c) ->
+  (leaser = None /\ (local = Some c \/ (local = None /\ c = 0))) \/ (leaser = Some c /\ local = Some c).
+Proof. exact post_acquire_own_cluster. Qed.
+Theorem C08_post_acquire_foreign_refused : forall a b, a <> b -> fst (post_acquire (Some a) (Some b)) = false.
+Proof. exact post_acquire_foreign_refused. Qed.
+
